@@ -27,7 +27,7 @@ def run(S):
     KF = 3 if S.tier == 'quick' else 5
     found = flows.explore_parens(S)
     found += flows.explore_flow(S, KF, want=('C04',))
-    found += lists.explore(S, KL, want=('C04',))
+    found += lists.explore(S, KL, want=('C04',), focus_last=S.tier == 'quick')
     # flow/paren models are confirmed on the same corpus
     lists.report(S, 'C04', found)
     fm = mathargs.explore(S, 3 if S.tier == 'quick' else 5, want=('C04',))
